@@ -353,6 +353,12 @@ def main_check(prop: str, tier: str) -> int:
     good = [r for r in results if r["status"] in ("ok", "disagree", "violation")]
     skipped = [r for r in results if r["status"] == "skipped"]
 
+    # inputs of a listed known finding: the implementation is known to misbehave there, so a disagreement with the
+    # model on such an input says nothing new (a violation on it is classified below)
+    from harness import findings as fmod0
+    known_disagree = [r for r in disagree if fmod0.classify(prop, r.get("case"), r.get("diffs", []), findings) is not None]
+    disagree = [r for r in disagree if r not in known_disagree]
+
     searched = 0
     if (disagree or proof_broken) and not viol:
         # the tie between model and code broke: look for an input on which the property fails
